@@ -611,7 +611,12 @@ fn eval_c03(case: &WireCase) -> Eval {
         } else {
             Terminal::CleanEof
         };
-        if o.terminal != expected_end {
+        // through the helpers a clean end can only come out as *some* I/O error ("closed without
+        // a response"); which kind is the implementation's choice
+        let helper_end_ok = case.via_command
+            && !case.silent
+            && matches!(o.terminal, Terminal::UnexpectedEof | Terminal::Io(_));
+        if o.terminal != expected_end && !helper_end_ok {
             return Some(Violation::new(
                 "C03",
                 "terminal",
